@@ -245,6 +245,15 @@ func (c *ControlRunner) Step(ev CEvent) CObs {
 			}
 			delete(c.calls, ev.ID)
 		}
+	case "sleep":
+		// the agent's real sleep-entry path: every peer connection is closed
+		if err := c.n.A.VerifPeerfamEnterSleep(); err != nil {
+			o.Note += "enterSleep: " + err.Error() + "; "
+		}
+		for p := range c.n.conns {
+			delete(c.n.conns, p)
+			delete(c.n.sinks, p)
+		}
 	case "connect":
 		c.n.Connect(ev.Peer, true)
 	case "disconnect":
@@ -337,6 +346,8 @@ func CoqCEvent(e CEvent) string {
 		return "CSendFails " + vh.CoqN(e.ID)
 	case "cancel":
 		return "CCancel " + vh.CoqN(e.ID)
+	case "sleep":
+		return "CSleep"
 	case "connect":
 		return "CConnect " + vh.CoqN(uint64(e.Peer))
 	case "disconnect":
